@@ -268,6 +268,10 @@ func TextUTypes() (reflect.Type, reflect.Type) { return tTUp, tTUv }
 
 type NUintptr uintptr
 
+// Duration is an int64 that merely shares time.Duration's NAME: for every source it is a plain
+// integer ("30" is thirty, "1h" is malformed).
+type Duration int64
+
 // NamedScalars lists a named type for every scalar kind.  NDur has duration
 // KIND only: it is an int64 for every source, not a time.Duration.
 func NamedScalars() []reflect.Type {
@@ -276,7 +280,7 @@ func NamedScalars() []reflect.Type {
 		reflect.TypeOf(NInt(0)), reflect.TypeOf(NInt8(0)), reflect.TypeOf(NInt16(0)), reflect.TypeOf(NInt32(0)), reflect.TypeOf(NCount(0)),
 		reflect.TypeOf(NUint(0)), reflect.TypeOf(NLevel(0)), reflect.TypeOf(NUint16(0)), reflect.TypeOf(NUint32(0)), reflect.TypeOf(NUint64(0)),
 		reflect.TypeOf(NUintptr(0)), reflect.TypeOf(NF32(0)), reflect.TypeOf(NF64(0)), reflect.TypeOf(NC64(0)), reflect.TypeOf(NC128(0)),
-		reflect.TypeOf(NDur(0)),
+		reflect.TypeOf(NDur(0)), reflect.TypeOf(Duration(0)),
 	}
 }
 
